@@ -216,6 +216,216 @@ def run(ctx):
 
     common.parallel(fault, list(enumerate(fjobs)))
 
+    # ---------------- other modes of asconcrypt: -g key generation, key-file syntax, stdin/stdout, several files, direction detection
+    def tool_io(args, data, env=None, cwd=None):
+        e = dict(os.environ)
+        if env:
+            e.update({k: str(v) for k, v in env.items()})
+        p = subprocess.run(args, input=data, stdout=subprocess.PIPE, stderr=subprocess.PIPE, env=e, cwd=cwd, timeout=120)
+        ctx.stat("evaluations")
+        return p.returncode, p.stdout, p.stderr
+
+    PWCHARS = set(b"0123456789abcdefghijklmnopqrstuvwxyzABCDEFGHIJKLMNOPQRSTUVWXYZ%$")
+
+    def genkey():
+        d = wd()
+        kf = os.path.join(d, "gen.key")
+        rc, r, w, op, rn = counts([crypt, "-g", kf], d)
+        key = "asconcrypt:genkey"
+        if rc != 0 or not os.path.isfile(kf):
+            ctx.fail(key, "-g exits %d, key file %s" % (rc, "present" if os.path.isfile(kf) else "absent"), rep([crypt, "-g", kf]))
+            return
+        k = open(kf, "rb").read()
+        if len(k) != 41 or k[-1:] != b"\n" or not set(k[:-1]) <= PWCHARS:
+            ctx.fail(key, "generated key file is not 40 password characters and a newline: %r" % k[:60])
+        if (os.stat(kf).st_mode & 0o077) != 0:
+            ctx.fail(key, "generated key file is accessible to group/other: mode %o" % (os.stat(kf).st_mode & 0o777))
+        k2f = os.path.join(d, "gen2.key")
+        tool([crypt, "-g", k2f])
+        if os.path.isfile(k2f) and open(k2f, "rb").read() == k:
+            ctx.fail(key, "two -g runs produced the same password")
+        # the generated file is usable as -k, and is the same password as its first line given with -p
+        data = content(100, 1)
+        rc, enc, e = encrypt(d, data, ["-k", kf])
+        out = os.path.join(d, "o.bin")
+        rc2, o, e = tool([crypt, "-d", "-p", k[:-1].decode(), "-o", out, enc])
+        if rc != 0 or rc2 != 0 or open(out, "rb").read() != data:
+            ctx.fail(key, "file encrypted with -k <generated> does not decrypt with -p <its first line> (exit %d/%d)" % (rc, rc2))
+        ctx.stat("nontrivial")
+        # every k-th write / open / getrandom failure, EINTR and 1-byte transfers
+        plans = [({"VP_FAIL_WRITE": i, "VP_ERRNO": en}, None) for i in range(w) for en in (28, 5)] + [({"VP_FAIL_OPEN": i, "VP_ERRNO": 13}, None) for i in range(op)] + \
+                [({"VP_FAIL_RAND": i, "VP_ERRNO": 38}, None) for i in range(rn)] + [({"VP_EINTR_WRITE": i}, 1) for i in range(w)] + [({"VP_SHORT": 1}, 1)]
+        for i, (env, benign) in enumerate(plans):
+            f = os.path.join(d, "g%d.key" % i)
+            rc, o, e = tool([crypt, "-g", f], env=env)
+            what = ",".join("%s=%s" % kv for kv in sorted(env.items()))
+            if benign:
+                kk = open(f, "rb").read() if os.path.isfile(f) else b""
+                if rc != 0 or len(kk) != 41 or not set(kk[:-1]) <= PWCHARS:
+                    ctx.fail("asconcrypt:benign:genkey", "-g with %s: exit %d, key file %r" % (what, rc, kk[:50]), rep([crypt, "-g", f], env))
+            elif rc == 0 or os.path.exists(f):
+                kind = [x for x in env if x.startswith("VP_FAIL")][0][8:].lower()
+                ctx.fail("asconcrypt:fault:%s:genkey" % kind, "-g with %s: exit status %d, key file %s (%d bytes)" %
+                         (what, rc, "left behind" if os.path.exists(f) else "absent", os.path.getsize(f) if os.path.exists(f) else 0), rep([crypt, "-g", f], env))
+            ctx.stat("nontrivial")
+            ctx.stat("fault_plans")
+    genkey()
+
+    def keyfile_syntax():
+        # the password is the first line of the key file: LF, CRLF, no terminator, further lines ignored; the same password through -p must interoperate
+        d = wd()
+        data = content(33, 1)
+        for desc, raw, pw in (("LF", b"s3cret pw\n", "s3cret pw"), ("CRLF", b"s3cret pw\r\n", "s3cret pw"), ("no terminator", b"s3cret pw", "s3cret pw"), ("second line", b"s3cret pw\nignored\n", "s3cret pw"),
+                              ("1023 chars", b"Q" * 1023, "Q" * 1023), ("1023 chars + LF", b"Q" * 1023 + b"\n", "Q" * 1023), ("one char", b"z\n", "z")):
+            kf = os.path.join(d, "k.txt")
+            write(kf, raw)
+            rc, enc, e = encrypt(d, data, ["-k", kf])
+            out = os.path.join(d, "o.bin")
+            if os.path.exists(out):
+                os.unlink(out)
+            rc2, o, e2 = tool([crypt, "-d", "-p", pw, "-o", out, enc])
+            if rc != 0 or rc2 != 0 or not os.path.isfile(out) or open(out, "rb").read() != data:
+                ctx.fail("asconcrypt:keyfile", "key file (%s): encrypt -k exits %d, decrypt -p exits %d: %s" % (desc, rc, rc2, (e + e2)[-160:]), rep([crypt, "-e", "-k", kf]))
+            rc3, o, e3 = tool([crypt, "-d", "-p", pw + "x", "-o", out + "2", enc])
+            if rc3 == 0 or os.path.exists(out + "2"):
+                ctx.fail("asconcrypt:wrong-password", "key file (%s): a longer password is accepted" % desc)
+            ctx.stat("nontrivial")
+        for desc, raw in (("NUL in the password", b"ab\0cd\n"), ("1024 chars without end of line", b"Q" * 1024), ("2000 chars", b"Q" * 2000 + b"\n")):
+            kf = os.path.join(d, "bad.txt")
+            write(kf, raw)
+            outp = os.path.join(d, "bad.ascon")
+            src = os.path.join(d, "in.bin")
+            rc, o, e = tool([crypt, "-e", "-k", kf, "-o", outp, src])
+            if rc == 0 or os.path.exists(outp):
+                ctx.fail("asconcrypt:keyfile", "unusable key file (%s) but exit status %d, output %s" % (desc, rc, "left behind" if os.path.exists(outp) else "absent"), rep([crypt, "-e", "-k", kf, "-o", outp, src]))
+            ctx.stat("nontrivial")
+        missing = os.path.join(d, "nonexistent.key")
+        rc, o, e = tool([crypt, "-e", "-k", missing, "-o", os.path.join(d, "m.ascon"), os.path.join(d, "in.bin")])
+        if rc == 0 or os.path.exists(os.path.join(d, "m.ascon")):
+            ctx.fail("asconcrypt:keyfile", "missing key file but exit status %d" % rc)
+        # the k-th read of the key file fails
+        kf = os.path.join(d, "k.txt")
+        write(kf, b"s3cret pw\n")
+        for k in range(3):
+            outp = os.path.join(d, "kr%d.ascon" % k)
+            env = {"VP_FAIL_READ": k, "VP_ERRNO": 5}
+            rc, o, e = tool([crypt, "-e", "-k", kf, "-o", outp, os.path.join(d, "in.bin")], env=env)
+            if rc == 0 or os.path.exists(outp):
+                ctx.fail("asconcrypt:fault:read:keyfile", "read %d fails (key file / input): exit %d, output %s" % (k, rc, "left behind" if os.path.exists(outp) else "absent"), rep([crypt, "-e", "-k", kf, "-o", outp], env))
+            ctx.stat("fault_plans")
+    keyfile_syntax()
+
+    def stdio_modes(n):
+        d = wd()
+        data = content(n, 1)
+        key = "asconcrypt:stdio"
+        rc, enc, e = tool_io([crypt, "-e"] + PW + ["-"], data, cwd=d)
+        if rc != 0 or len(enc) != n + 96:
+            ctx.fail(key, "encrypting %d bytes from stdin to stdout: exit %d, %d bytes out: %s" % (n, rc, len(enc), e[-120:]), rep([crypt, "-e"] + PW + ["-"]))
+            return
+        rc, dec, e = tool_io([crypt, "-d"] + PW + ["-"], enc, cwd=d)
+        if rc != 0 or dec != data:
+            ctx.fail(key, "decrypting %d bytes from stdin to stdout: exit %d, output %s" % (len(enc), rc, "differs" if dec != data else "equal"), rep([crypt, "-d"] + PW + ["-"]))
+        # file <-> stdio interoperability in both directions
+        f = os.path.join(d, "x.ascon")
+        write(f, enc)
+        rc, dec2, e = tool_io([crypt, "-d"] + PW + ["-o", "-", f], b"", cwd=d)
+        if rc != 0 or dec2 != data:
+            ctx.fail(key, "decrypting a file to stdout (-o -): exit %d" % rc)
+        out = os.path.join(d, "x.out")
+        rc, o, e = tool_io([crypt, "-d"] + PW + ["-o", out, "-"], enc, cwd=d)
+        if rc != 0 or not os.path.isfile(out) or open(out, "rb").read() != data:
+            ctx.fail(key, "decrypting stdin to a file: exit %d" % rc)
+        if set(os.listdir(d)) - {"x.ascon", "x.out"}:
+            ctx.fail(key, "stdin/stdout modes created files: %s" % sorted(set(os.listdir(d)) - {"x.ascon", "x.out"}))
+        ctx.stat("nontrivial")
+        # tampering and truncation on the stdin path: non-zero exit status (there is no output file to remove)
+        pos = range(len(enc)) if (thorough or len(enc) < 200) else sorted(set(list(range(0, len(enc), 61)) + list(range(96)) + list(range(len(enc) - 20, len(enc)))))
+        for i in pos:
+            b2 = bytearray(enc)
+            b2[i] ^= 1 << (i % 8)
+            rc, o, e = tool_io([crypt, "-d"] + PW + ["-"], bytes(b2), cwd=d)
+            if rc == 0:
+                ctx.fail("asconcrypt:bitflip:stdio", "bit %d of byte %d of %d bytes on stdin flipped: exit status 0" % (i % 8, i, len(enc)))
+            rc, o, e = tool_io([crypt, "-d"] + PW + ["-"], enc[:i], cwd=d)
+            if rc == 0:
+                ctx.fail("asconcrypt:truncated:stdio", "stdin stream of %d bytes truncated to %d: exit status 0" % (len(enc), i))
+            ctx.stat("nontrivial", 2)
+        # k-th read/write fault on descriptors 0/1
+        for mode, args, inp in (("encrypt", [crypt, "-e"] + PW + ["-"], data), ("decrypt", [crypt, "-d"] + PW + ["-"], enc)):
+            cf = os.path.join(d, "counts.txt")
+            tool_io(args, inp, env={"VP_COUNTS": cf, "VP_STDIO": 1}, cwd=d)
+            r, w, op, rn = map(int, open(cf).read().split())
+            os.unlink(cf)
+            for var, kmax in (("VP_FAIL_READ", r), ("VP_FAIL_WRITE", w), ("VP_FAIL_RAND", rn)):
+                for k in range(kmax):
+                    env = {var: k, "VP_ERRNO": 5, "VP_STDIO": 1}
+                    rc, o, e = tool_io(args, inp, env=env, cwd=d)
+                    if rc == 0:
+                        ctx.fail("asconcrypt:fault:%s:%s-stdio" % (var[8:].lower(), mode), "%s of %d bytes stdin->stdout with %s=%d: exit status 0" % (mode, n, var, k), rep(args, env))
+                    ctx.stat("fault_plans")
+            for env in ({"VP_SHORT": 1, "VP_STDIO": 1},):
+                rc, o, e = tool_io(args, inp, env=env, cwd=d)
+                ok = (rc == 0 and o == data) if mode == "decrypt" else (rc == 0 and tool_io([crypt, "-d"] + PW + ["-"], o, cwd=d)[1] == data)
+                if not ok:
+                    ctx.fail("asconcrypt:benign:short-io:%s-stdio" % mode, "%s stdin->stdout with 1-byte transfers fails (exit %d)" % (mode, rc), rep(args, env))
+        shutil.rmtree(d, ignore_errors=True)
+    common.parallel(stdio_modes, [0, 1, 17, B + 1] if not thorough else [0, 1, 16, 17, B - 16, B + 1, 2 * B + 5])
+
+    def multi_file():
+        # several inputs, default output names, direction detection by suffix; one bad file must not stop or spoil the others but must fail the exit status
+        d = wd()
+        names = ["a.bin", "b", "c.dat"]
+        datas = {nm: content(50 + 7 * i, 1) for i, nm in enumerate(names)}
+        for nm in names:
+            write(os.path.join(d, nm), datas[nm])
+        key = "asconcrypt:multi"
+        rc, o, e = tool([crypt] + PW + names, cwd=d)
+        if rc != 0 or any(not os.path.isfile(os.path.join(d, nm + ".ascon")) for nm in names):
+            ctx.fail(key, "encrypting three files by default names (direction detected): exit %d, directory %s" % (rc, sorted(os.listdir(d))))
+            return
+        for nm in names:
+            os.unlink(os.path.join(d, nm))
+        rc, o, e = tool([crypt] + PW + [nm + ".ascon" for nm in names], cwd=d)
+        if rc != 0 or any(not os.path.isfile(os.path.join(d, nm)) or open(os.path.join(d, nm), "rb").read() != datas[nm] for nm in names):
+            ctx.fail(key, "decrypting three .ascon files by default names (direction detected): exit %d, directory %s" % (rc, sorted(os.listdir(d))))
+        ctx.stat("nontrivial")
+        # mixture of directions is refused
+        rc, o, e = tool([crypt] + PW + ["a.bin", "b.ascon"], cwd=d)
+        if rc == 0:
+            ctx.fail(key, "mixture of plain and .ascon inputs without -e/-d: exit status 0")
+        # tamper with the middle file: first and last decrypt, the middle one is absent, exit status non-zero
+        for which in range(3):
+            for nm in names:
+                if os.path.exists(os.path.join(d, nm)):
+                    os.unlink(os.path.join(d, nm))
+            encs = {nm: open(os.path.join(d, nm + ".ascon"), "rb").read() for nm in names}
+            bad = names[which]
+            b2 = bytearray(encs[bad])
+            b2[100] ^= 1
+            write(os.path.join(d, bad + ".ascon"), bytes(b2))
+            rc, o, e = tool([crypt, "-d"] + PW + [nm + ".ascon" for nm in names], cwd=d)
+            okothers = all(os.path.isfile(os.path.join(d, nm)) and open(os.path.join(d, nm), "rb").read() == datas[nm] for nm in names if nm != bad)
+            if rc == 0 or os.path.exists(os.path.join(d, bad)) or not okothers:
+                ctx.fail(key, "file %d of 3 tampered: exit %d, its output %s, the other outputs %s" % (which, rc, "left behind" if os.path.exists(os.path.join(d, bad)) else "absent", "correct" if okothers else "wrong/missing"))
+            write(os.path.join(d, bad + ".ascon"), encs[bad])
+            ctx.stat("nontrivial")
+        # -o with two inputs is refused; a missing input fails the exit status and leaves no output
+        rc, o, e = tool([crypt, "-d"] + PW + ["-o", "out.x", "a.bin.ascon", "b.ascon"], cwd=d)
+        if rc == 0 or os.path.exists(os.path.join(d, "out.x")):
+            ctx.fail(key, "-o with two inputs: exit %d" % rc)
+        rc, o, e = tool([crypt, "-e"] + PW + ["nothere.bin"], cwd=d)
+        if rc == 0 or os.path.exists(os.path.join(d, "nothere.bin.ascon")):
+            ctx.fail(key, "missing input file: exit %d, output %s" % (rc, "left behind" if os.path.exists(os.path.join(d, "nothere.bin.ascon")) else "absent"))
+        # decrypting something that is not an encrypted file (every size around the header) fails and leaves nothing
+        for n in list(range(0, 100)) + [B, B + 96]:
+            write(os.path.join(d, "plain.bin"), content(n, 2))
+            rc, o, e = tool([crypt, "-d"] + PW + ["plain.bin"], cwd=d)
+            if rc == 0 or os.path.exists(os.path.join(d, "plain.bin.decrypted")):
+                ctx.fail("asconcrypt:not-encrypted", "decrypting a %d-byte file that is not in the format: exit %d, output %s" % (n, rc, "left behind" if os.path.exists(os.path.join(d, "plain.bin.decrypted")) else "absent"))
+            ctx.stat("nontrivial")
+    multi_file()
+
     # ---------------- asconsum
     d = wd()
     names = []
